@@ -16,7 +16,7 @@ import (
 func init() { Registry["C18"] = c18 }
 
 func c18(p *core.Prog, r *core.Report) {
-	r.Explain = "Decides: (R1) totality of the codec packages on arbitrary bytes as far as index/slice/make/library-length sinks go: every such sink in typed (ReadBuffer, Reader), thrift header reading, the arg2 key/value iterator and the HTTP codec is in bounds for all operand values, including negative lengths produced by uint64->int conversion; (R2) writer/reader symmetry against layouts written from the documented encodings: thrift headers nh:2 (k~2 v~2)*, HTTP request method~1 url~varint headers, HTTP response status:2 message~varint headers, the iterator's per-pair k~2 v~2, repeated HTTP header values written and appended one pair per value; (R3) the iterator's Next returns io.EOF exactly at zero remaining pairs and otherwise decrements the count by one and advances over exactly the bytes it parsed; (R4) header plumbing by value provenance: thrift and JSON clients write the context's request headers as arg2 and set the decoded response headers on the caller's context; servers build the handler context from the decoded arg2 headers and write the context's response headers. Response variables that a retried call decodes in place are re-initialised at the start of every attempt. (R5) pooled codec objects are reset when taken from the pool (shared with C04). Response headers are set on the caller's context on every successful return (empty maps included); the typed buffer's length limits are exact (shared with C06). The transport's tracing keys are removed from the application headers on every path after the tracer's Extract."
+	r.Explain = "Decides: (R1) totality of the codec packages on arbitrary bytes as far as index/slice/make/library-length sinks go: every such sink in typed (ReadBuffer, Reader), thrift header reading, the arg2 key/value iterator and the HTTP codec is in bounds for all operand values, including negative lengths produced by uint64->int conversion; (R2) writer/reader symmetry against layouts written from the documented encodings: thrift headers nh:2 (k~2 v~2)*, HTTP request method~1 url~varint headers, HTTP response status:2 message~varint headers, the iterator's per-pair k~2 v~2, repeated HTTP header values written and appended one pair per value; (R3) the iterator's Next returns io.EOF exactly at zero remaining pairs and otherwise decrements the count by one and advances over exactly the bytes it parsed; (R4) header plumbing by value provenance: thrift and JSON clients write the context's request headers as arg2 and set the decoded response headers on the caller's context; servers build the handler context from the decoded arg2 headers and write the context's response headers. Response variables that a retried call decodes in place are re-initialised at the start of every attempt. (R5) pooled codec objects are reset when taken from the pool (shared with C04). Response headers are set on the caller's context on every successful return (empty maps included); the typed buffer's length limits are exact (shared with C06). The transport's tracing keys are removed from the application headers on every path after the tracer's Extract. A return whose error value is not known to be non-nil counts as a possibly successful return for the response-header rule; the HTTP codec's arg2 buffer has the documented constant size."
 	r.NotDecided = "value equality of decoded and encoded maps for all contents; behaviour of encoding/json and the thrift struct codecs; size limits of the 10000-byte HTTP buffer."
 	r.Rule("C18-R1", "E3 ranges", 12, "codec sinks in bounds for all operand values")
 	r.Rule("C18-R2", "E5 layout", 8, "codec writer/reader layouts equal the documented encodings")
